@@ -76,6 +76,109 @@ fn oracle() -> Oracle {
     })
 }
 
+/// A legal but unusual use of the public API: the signal list handed to `with_signals` is cloned
+/// from the public `signals` field of another loaded test that declares a virtual signal (so the
+/// list already holds a virtual signal, in front of an output that is pushed after it). The bound
+/// test behaves like the same text with the declaration written into it.
+pub fn cloned_signal_list_part(deadline: &Deadline) -> Stats {
+    use crate::driver::Step;
+    use crate::props::util::*;
+    let decls: Vec<(&str, Expr)> = vec![("Q + 1", bin(BinOp::Add, name("Q"), lit(1))), ("Q * 2 + C", bin(BinOp::Add, bin(BinOp::Mul, name("Q"), lit(2)), name("C"))), ("7", lit(7))];
+    let tests: Vec<(&str, Vec<&str>, Vec<Vec<Entry>>)> = vec![
+        ("virtual column in the header", vec!["A", "Q", "V", "C"], vec![vec![Entry::Lit(1, Radix::Dec), Entry::X, Entry::Lit(3, Radix::Dec), Entry::X], vec![Entry::Lit(2, Radix::Dec), Entry::Lit(1, Radix::Dec), Entry::X, Entry::Lit(5, Radix::Dec)], vec![Entry::C, Entry::X, Entry::Lit(7, Radix::Dec), Entry::Lit(6, Radix::Dec)]]),
+        ("neither the virtual signal nor its operand in the header", vec!["A", "C"], vec![vec![Entry::Lit(1, Radix::Dec), Entry::X], vec![Entry::Lit(2, Radix::Dec), Entry::Lit(5, Radix::Dec)]]),
+        ("a row that reads C", vec!["A", "C", "V"], vec![vec![Entry::Paren(name("C")), Entry::X, Entry::X], vec![Entry::Paren(bin(BinOp::Add, name("C"), lit(1))), Entry::Lit(5, Radix::Dec), Entry::Lit(4, Radix::Dec)]]),
+    ];
+    let answers: Vec<Vec<(&str, V)>> = vec![vec![("Q", V::Num(2)), ("C", V::Num(5))], vec![("C", V::Num(6)), ("Q", V::Num(3))], vec![("C", V::Num(5))], vec![("Q", V::Z), ("C", V::Num(5))], vec![]];
+    par_range("signal list cloned from a loaded test that declares a virtual signal (3 declarations x 2 list orders) x 3 tests x 5 driver layouts, and the static iteration", (decls.len() * 2 * tests.len() * answers.len()) as u64, deadline, |u, st| {
+        let d = digits(u, &[answers.len() as u64, tests.len() as u64, 2, decls.len() as u64]);
+        let (ans, (tname, header, rows), c_last, (dtext, dexpr)) = (&answers[d[0]], &tests[d[1]], d[2] == 0, &decls[d[3]]);
+        // the first test: declares V; its signal list is what the caller re-uses
+        let first_sigs = if dtext.contains('C') { vec![Sig::inp("A", 4, 0), Sig::out("Q", 4), Sig::out("C", 4)] } else { vec![Sig::inp("A", 4, 0), Sig::out("Q", 4)] };
+        let first_text = format!("A Q\ndeclare V = {dtext};\n0 X\n");
+        let Ok(first) = load(&first_text, &first_sigs, DEFAULT_BUDGET) else { return };
+        let mut list: Vec<digital_test_runner::Signal> = first.signals.clone();
+        if !dtext.contains('C') {
+            let c = Sig::out("C", 4).to_real();
+            if c_last {
+                list.push(c);
+            } else {
+                list.insert(1, c);
+            }
+        }
+        let prog2 = Program { header: header.iter().map(|s| s.to_string()).collect(), body: rows.iter().map(|r| Stmt::Row(r.clone())).collect() };
+        let text2 = crate::model::text(&prog2);
+        let Ok(Ok(parsed)) = parse(&text2, DEFAULT_BUDGET) else { return };
+        let bound = guard(DEFAULT_BUDGET, move || parsed.with_signals(list));
+        st.evals += 1;
+        st.nontrivial += 1;
+        st.witness("signal_list_cloned_from_a_loaded_test");
+        let tc = match bound {
+            Ok(Ok(tc)) => tc,
+            Ok(Err(_)) => return, // whether such a list is accepted is C11's
+            Err(c) => {
+                st.violation("with_signals panics on a cloned signal list", u, format!("first test:\n{first_text}its signals (plus Out C) re-used for:\n{text2}{c:?}"), || json!({"kind": "none", "observed": [format!("{c:?}")], "expected": ["no panic"]}));
+                return;
+            }
+        };
+        // reference: the same text with the declaration written into it, plain signals
+        let mut body = vec![Stmt::Declare("V".into(), dexpr.clone())];
+        body.extend(prog2.body.iter().cloned());
+        let refprog = Program { header: prog2.header.clone(), body };
+        let plain = vec![Sig::inp("A", 4, 0), Sig::out("Q", 4), Sig::out("C", 4)];
+        let answer: Answer = ans.iter().map(|(n, v)| (n.to_string(), *v)).collect();
+        let script = vec![Step::Ans(answer)];
+        let mut opts = RunOpts::new(12);
+        opts.repeat_last = true;
+        opts.continue_after_error = true;
+        let obs = run_loaded(&tc, &plain, true, &script, &opts);
+        let stat = run_static_opt(&tc, 12, 1, DEFAULT_BUDGET, true);
+        let panicked = match (&obs.init, &stat) {
+            (ObsInit::Panic(s), _) => Some(s.clone()),
+            (_, StaticObs::Panic(s)) => Some(format!("static iteration: {s}")),
+            _ => obs.items.iter().find_map(|i| if let ObsItem::Panic(s) = i { Some(s.clone()) } else { None }),
+        };
+        let describe = |m: &str| format!("first test:\n{first_text}its signal list (Out C {}) is re-used for ({tname}):\n{text2}driver answers {ans:?}\n{m}", if c_last { "pushed after V" } else { "inserted before V" });
+        if let Some(s) = panicked {
+            st.violation(&format!("test bound to a cloned signal list panics {}", panic_site(&s)), u, describe(&s), || dyn_replay(&text2, &plain, true, &script, &opts, vec!["rows / error items".into()], &obs, &s));
+            return;
+        }
+        if bind_judgement(&refprog, &plain).is_err() {
+            return;
+        }
+        let mut env = ScriptEnv::new(&script);
+        env.repeat_last = true;
+        let r = crate::refsem::run_opts2(&refprog, &plain, &mut env, Fuel { steps: 2000, rows: 40 }, true, true);
+        if !init_matches(&r.init, &obs.init) {
+            // a driver that does not supply an operand of the virtual signal: construction may fail or every row may
+            return;
+        }
+        if r.init != RefInit::Ok {
+            return;
+        }
+        for (k, (ri, oi)) in r.items.iter().zip(obs.items.iter()).enumerate() {
+            let (RefItem::Row(rr), ObsItem::Row(or)) = (ri, oi) else {
+                if matches!(ri, RefItem::Row(_)) != oi.is_row() {
+                    st.violation("item kind differs for a test bound to a cloned signal list", u, describe(&format!("item {k}: with the declaration written into the text: {}; observed: {}", ref_brief(ri), oi.brief())), || dyn_replay(&text2, &plain, true, &script, &opts, ref_items_brief(&r), &obs, "item kind"));
+                    return;
+                }
+                continue;
+            };
+            // outputs by name (the position of the virtual signal among them follows the cloned list)
+            let mut want: Vec<(String, V, V)> = rr.outputs.iter().map(|o| (o.name.clone(), o.output, o.expected)).collect();
+            let mut got: Vec<(String, V, V)> = or.outputs.iter().map(|o| (o.name.clone(), o.output, o.expected)).collect();
+            want.sort_by(|a, b| a.0.cmp(&b.0));
+            got.sort_by(|a, b| a.0.cmp(&b.0));
+            let ins_want: Vec<(String, V)> = rr.inputs.clone();
+            let ins_got: Vec<(String, V)> = or.inputs.iter().map(|(n, v, _)| (n.clone(), *v)).collect();
+            if want != got || ins_want != ins_got {
+                st.violation("values attributed to the wrong signal for a test bound to a cloned signal list", u, describe(&format!("item {k}: (signal, output, expected) by name: expected {want:?}, got {got:?}; inputs expected {ins_want:?}, got {ins_got:?}")), || dyn_replay(&text2, &plain, true, &script, &opts, ref_items_brief(&r), &obs, "outputs by name"));
+                return;
+            }
+        }
+    })
+}
+
 pub fn run(tier: Tier, seed: u64) -> i32 {
     let started = Instant::now();
     let deadline = Deadline::new(tier.wall_cap());
@@ -267,10 +370,11 @@ pub fn run(tier: Tier, seed: u64) -> i32 {
         assumptions: vec![
             "reference interpreter evaluates each declaration over the answer of the same call with no variables visible; virtual entries are matched by name (their mutual order is C15's)".into(),
         ],
-        required_witnesses: vec!["row_with_virtual_signal", "virtual_signal_with_expected_column", "virtual_signal_over_Z_or_X_is_an_error_item", "c_expansion", "program_with_variable_named_like_an_output", "row_with_an_answer_of_the_wrong_length"],
+        required_witnesses: vec!["row_with_virtual_signal", "virtual_signal_with_expected_column", "virtual_signal_over_Z_or_X_is_an_error_item", "c_expansion", "program_with_variable_named_like_an_output", "row_with_an_answer_of_the_wrong_length", "signal_list_cloned_from_a_loaded_test"],
         exhaustive_note: "every reachable state for every case".into(),
         e1: true,
     };
     st.merge(crate::props::c13::api_use_part(&deadline));
+    st.merge(cloned_signal_list_part(&deadline));
     finish(meta, st, started)
 }
